@@ -215,8 +215,8 @@ class HeadFormulaToBodyFormula(_tf.TelTransformer):
         return self.__add_formula(_bd.Next(self(x.rhs), x.lhs, x.weak))
 
     def visit_TelUntil(self, x):
-        formula = self.__add_formula(_bd.TelFormulaN(">?", None if x.lhs is None else self(x.lhs), self(x.rhs)))
-        formula.set_future(self.__add_formula(_bd.Next(formula, 1, False)))
+        formula = self.__add_formula(_bd.TelFormulaN(">?" if x.until else ">*", None if x.lhs is None else self(x.lhs), self(x.rhs)))
+        formula.set_future(self.__add_formula(_bd.Next(formula, 1, not x.until)))
         return formula
 
     def visit_TelClause(self, x):
